@@ -459,7 +459,12 @@ class Array(metaclass=MetaArray):
             shape = cls._shape
         if not cls._is_static_type:
             items = np.prod(shape)
-            self._offsets = Int64._array_from_buffer(buffer, coffset, items)
+            order = mk_order(cls._order, shape)
+            self._offsets = (
+                Int64._array_from_buffer(buffer, coffset, items)
+                .reshape([shape[io] for io in order])
+                .transpose(np.argsort(order))
+            )
         return self
 
     @classmethod
